@@ -31,9 +31,25 @@ def g_merge(prop, bound, arity, sample=None, seed=0):
 def g_merge_bare(prop, bound):
     """merge whose first input carries no provenance (assembled by hand): frame clauses only"""
     shs = harness.shapes(*bound)
-    T = [dict(shapes_=[a, b], bare_first=True) for a in shs for b in shs] + [dict(shapes_=[a, b, a], bare_first=True) for a in shs[:6] for b in shs[:12]]
-    return dict(name='merge/first input without provenance', bound=bound_text(bound), exhaustive=True,
-                tasks=[dict(module='contracts.merge', want=[prop], args=a, cross=False) for a in T])
+    T = [dict(shapes_=[a], bare_first=True) for a in shs]
+    T += [dict(shapes_=[a, b], bare_first=True) for a in shs for b in shs] + [dict(shapes_=[a, b, a], bare_first=True) for a in shs[:6] for b in shs[:12]]
+    M = [dict(shape=s, nnames=1, mode='mask', hide=False, bare=True) for s in shs]
+    E = [dict(shapes_=[a, b], mode='embed', bare_first=True) for a in shs for b in shs[:8]]
+    return dict(name='merge, mask, embed / first input without provenance (assembled by hand, or an upgraded plain inspect.Signature)', bound=bound_text(bound), exhaustive=True,
+                tasks=[dict(module='contracts.merge', want=[prop], args=a, cross=False) for a in T] +
+                [dict(module='contracts.mask', want=[prop], args=a, cross=False) for a in M] +
+                [dict(module='contracts.embed', want=[prop], args=a, cross=False) for a in E])
+
+
+def g_shared_callable(prop, bound):
+    """merge / embed of signatures whose provenance knows a second callable - possibly the other operand's own function,
+    at any depth (what forwarding chains produce): depth map and frame clauses"""
+    shs = harness.shapes(*bound)
+    T = [dict(shapes_=[a, b], extra_callable=True) for a in shs for b in shs]
+    E = [dict(shapes_=[a, b], mode='embed', extra_callable=True) for a in shs for b in shs]
+    return dict(name='merge, embed / a callable known to both operands at different depths', bound=bound_text(bound), exhaustive=True,
+                tasks=[dict(module='contracts.merge', want=[prop], args=a, cross=False) for a in T] +
+                [dict(module='contracts.embed', want=[prop], args=a, cross=False) for a in E])
 
 
 def g_merge_laws(prop, bound, bound3, sample3=None, seed=0):
@@ -108,6 +124,8 @@ def g_dropin(prop, bound):
         T += [dict(unit='sig_eq', shape=sh, other=o) for o in OTHERS]
         T += [dict(unit='sig_replace', shape=sh, other=o) for o in ('keep', 'override')]
         T += [dict(unit='sig_init', shape=sh)]
+        if sh[3] == 0:
+            T += [dict(unit='sig_evaluated', shape=sh)]
     return dict(name='upgraded inspect classes', bound='parameter-level units: none (tier P, all five kinds, every field symbolic); signature-level units: ' + bound_text(bound) +
                 '; the other operand of == ranges over: the object itself, an upgraded twin with symbolic data, the plain inspect object with the same data, '
                 'a plain inspect object with symbolic data, None, a foreign object',
@@ -222,8 +240,10 @@ def plan(prop, tier, seed=0):
         if not q:
             G += [g_partial(prop, (1, 2, 1, 3), 3)]
     elif prop in ('C08', 'C10', 'C11', 'C15', 'C16'):
-        if prop in ('C16', 'C08'):
+        if prop in ('C16', 'C08', 'C15'):
             G += [g_merge_bare(prop, (1, 1, 1, 2))]
+        if prop in ('C08', 'C16'):
+            G += [g_shared_callable(prop, (0, 1, 1, 1) if q else (1, 1, 1, 2))]
         G += [g_merge(prop, B2, 2), g_merge(prop, B3, 3, 150 if q else 4000, seed), g_mask(prop, B1, 1), g_embed(prop, B3 if q else B2, 'embed'),
               g_forwards(prop, BS, 1, 60 if q else 1200, seed)]
         if prop in ('C08', 'C10', 'C11'):
@@ -233,6 +253,10 @@ def plan(prop, tier, seed=0):
     if prop == 'C12':
         G += [g_modifiers(prop, (1, 2, 1, 3) if q else (1, 3, 1, 4), q)]
     if prop == 'C11':
+        g = g_dropin(prop, B1)
+        g['tasks'] = [t for t in g['tasks'] if t['args']['unit'] in ('sig_evaluated', 'param_replace', 'sig_replace')]
+        g['name'] = 'evaluated() / replace() of the upgraded classes'
+        G += [g]
         g = g_modifiers(prop, (1, 2, 1, 3), True)
         g['tasks'] = [t for t in g['tasks'] if t['args']['mode'] == 'annotate']
         g['name'] = 'modifiers.annotate'
@@ -265,7 +289,12 @@ def plan(prop, tier, seed=0):
         g['tasks'] = [t for t in g['tasks'] if t['args']['mode'] == 'af_function_ua']
         g['name'] = 'retrieval of a wrapper (own annotations)'
         G += [g]
-    if prop == 'C19':
+    if prop == 'C14':
+        g = g_retrieval(prop)
+        g['tasks'] = [t for t in g['tasks'] if t['args']['mode'] == 'forged']
+        g['name'] = 'retrieval returns the upgraded type'
+        G += [g]
+    if prop in ('C19', 'C10'):
         g = g_retrieval(prop)
         g['tasks'] = [t for t in g['tasks'] if t['args']['mode'] == 'af_partial']
         g['name'] = 'discovery through partials'
